@@ -279,25 +279,40 @@ Qed.
 
 Definition enf_events (v : rule * ctx * list signer) : list event :=
   let '(r, c, au) := v in map (fun p => EEnforce p c au r) (r_policies r).
-Definition enf_accepted (O : oracles) (v : rule * ctx * list signer) : bool :=
-  let '(r, c, au) := v in forallb (fun p => o_enforce O p c au r) (r_policies r).
+(* the enforce hooks accept a sequence of enforce calls, one after the other: each call sees the
+   calls made before it in this check ([pre]) *)
+Fixpoint accepted_seq (O : oracles) (pre : list event) (evs : list event) : bool :=
+  match evs with
+  | [] => true
+  | EEnforce p c au r :: rest => o_enforce O pre p c au r && accepted_seq O (pre ++ [EEnforce p c au r]) rest
+  | _ :: _ => false
+  end.
 
-Lemma enforce_policies_spec O ps c au r :
-  enforce_policies O ps c au r =
-    if forallb (fun p => o_enforce O p c au r) ps then Ok (map (fun p => EEnforce p c au r) ps) else Fail.
+Lemma accepted_seq_app O l1 : forall pre l2,
+  accepted_seq O pre (l1 ++ l2) = accepted_seq O pre l1 && accepted_seq O (pre ++ l1) l2.
 Proof.
-  induction ps as [|p rest IH]; cbn [enforce_policies forallb map]; [reflexivity|].
-  destruct (o_enforce O p c au r); cbn [andb]; [|reflexivity].
-  rewrite IH. destruct (forallb _ rest); reflexivity.
+  induction l1 as [|e l1 IH]; intros pre l2; cbn [app accepted_seq]; [rewrite app_nil_r; reflexivity|].
+  destruct e; try reflexivity. rewrite IH, <- app_assoc. cbn [app]. apply andb_assoc.
 Qed.
 
-Lemma enforce_all_spec O vs :
-  enforce_all O vs = if forallb (enf_accepted O) vs then Ok (flat_map enf_events vs) else Fail.
+Lemma enforce_policies_spec O ps c au r : forall pre,
+  enforce_policies O pre ps c au r =
+    if accepted_seq O pre (map (fun p => EEnforce p c au r) ps) then Ok (map (fun p => EEnforce p c au r) ps) else Fail.
 Proof.
-  induction vs as [|[[r c] au] rest IH]; cbn [enforce_all forallb flat_map]; [reflexivity|].
-  rewrite enforce_policies_spec. unfold enf_accepted at 1.
-  destruct (forallb (fun p => o_enforce O p c au r) (r_policies r)); cbn [andb bind]; [|reflexivity].
-  rewrite IH. destruct (forallb (enf_accepted O) rest); reflexivity.
+  induction ps as [|p rest IH]; intros pre; cbn [enforce_policies map accepted_seq]; [reflexivity|].
+  destruct (o_enforce O pre p c au r); cbn [andb]; [|reflexivity].
+  rewrite IH. destruct (accepted_seq O _ _); reflexivity.
+Qed.
+
+Lemma enforce_all_spec O vs : forall pre,
+  enforce_all O pre vs = if accepted_seq O pre (flat_map enf_events vs) then Ok (flat_map enf_events vs) else Fail.
+Proof.
+  induction vs as [|[[r c] au] rest IH]; intros pre; cbn [enforce_all flat_map]; [reflexivity|].
+  rewrite enforce_policies_spec, accepted_seq_app.
+  change (enf_events (r, c, au)) with (map (fun p => EEnforce p c au r) (r_policies r)).
+  destruct (accepted_seq O pre (map (fun p => EEnforce p c au r) (r_policies r))); cbn [andb bind]; [|reflexivity].
+  rewrite IH.
+  destruct (accepted_seq O (pre ++ map (fun p => EEnforce p c au r) (r_policies r)) (flat_map enf_events rest)); reflexivity.
 Qed.
 
 Lemma filter_enf_events vs : filter is_enf (flat_map enf_events vs) = flat_map enf_events vs.
@@ -312,14 +327,14 @@ Theorem do_check_auth_ok O a now auths sigs cs log :
   do_check_auth O a now auths sigs cs = Ok log ->
   (forall x, In x sigs -> verified O auths x) /\
   exists vs, Forall2 (validated O a now (map fst sigs)) cs vs /\
-             forallb (enf_accepted O) vs = true /\
+             accepted_seq O [] (flat_map enf_events vs) = true /\
              filter is_enf log = flat_map enf_events vs.
 Proof.
   unfold do_check_auth. intros H.
   destruct (authenticate O auths sigs) as [lv|] eqn:Ea; [|discriminate]. cbn [bind] in H.
   destruct (validate_all O a now cs (map fst sigs)) as [[vs lc]|] eqn:Ev; [|discriminate]. cbn [bind] in H.
   rewrite enforce_all_spec in H.
-  destruct (forallb (enf_accepted O) vs) eqn:Ef; [|discriminate]. cbn in H. inversion H; subst.
+  destruct (accepted_seq O [] (flat_map enf_events vs)) eqn:Ef; [|discriminate]. cbn in H. inversion H; subst.
   destruct (authenticate_ok _ _ _ _ Ea) as [Hs Hlv].
   destruct (validate_all_ok _ _ _ _ _ _ _ Ev) as [Hf Hlc].
   split; [exact Hs|]. exists vs. split; [exact Hf|]. split; [exact Ef|].
@@ -329,7 +344,7 @@ Qed.
 Theorem do_check_auth_complete O a now auths sigs cs vs :
   (forall x, In x sigs -> verified O auths x) ->
   Forall2 (validated O a now (map fst sigs)) cs vs ->
-  forallb (enf_accepted O) vs = true ->
+  accepted_seq O [] (flat_map enf_events vs) = true ->
   exists log, do_check_auth O a now auths sigs cs = Ok log.
 Proof.
   intros Hs Hf He. unfold do_check_auth.
